@@ -100,6 +100,15 @@ def run(ctx, res):
                 CollapseAmbiguities().transform(t)
             except Exception as e:
                 res.violation('regression of fixed finding F25: ' + f['what'], dict(w, error=repr(e)))
+        if f['id'] == 'F29' and f['status'] == 'open':
+            from lark import Lark
+            import ebnflib
+            w = f['witness']
+            got = ebnflib.tree_set(Lark(w['grammar'], parser='earley', ambiguity='explicit').parse(w['text']))
+            if got == ['["T", "start", []]']:
+                res.known_hits.append(('F29', '%s: %r on %r gives only start(), the tree start(a) of the second alternative is missing' % (f['what'], w['grammar'], w['text'])))
+            elif len(got) != 2:
+                res.violation('the pinned witness of F29 behaves in a new way', dict(w, got=got))
         if f['id'] == 'F24' and f['status'] == 'open':
             from lark import Lark
             w = f['witness']
